@@ -249,7 +249,10 @@ open P in
 def parseInOp : P InOp := do
   let t ← tok
   match t with
-  | "Q" => do let r ← bytes; let v ← bool; pure (.q r v)
+  | "Q" => do
+    let r ← bytes; let v ← bool
+    let _ ← bool; let _ ← bool; let _ ← bool     -- the file types asked for (LJH2.2, OFF, LJH3): `v` sums them up
+    pure (.q r v)
   | "L" => do let l ← bytes; pure (.l l)
   | "T" => do let ts ← int; let l ← bytes; pure (.t ts l)
   | "B" => do let f ← int; let d ← int; let e ← list int; pure (.b f d e)
@@ -308,7 +311,8 @@ def runEnds : S → List Op → List Bool
 
 def runLine (ts : List String) : Verdict :=
   let p : P (List (InOp × ImplRes) × List RunObs) := do
-    P.kw "nch"; let _ ← P.nat
+    P.kw "nch"; let nch ← P.nat
+    P.kw "proj"; let _ ← P.rep P.bool nch        -- which channels have projectors (enters through `valid`)
     P.kw "ops"; let ops ← P.list parseInOp
     P.kw "OUT"
     let t ← P.peek
